@@ -47,6 +47,14 @@ inductive Err where
   | outOfFuel       -- the re-dispatch loop of handle_death did not finish (livelock)
 deriving Repr, DecidableEq
 
+/-- ghost record (not in the code): an input the pool gave up because the worker it belonged to was dead -/
+structure Drop where
+  w : Nat            -- the worker
+  inp : Inp
+  handed : Bool      -- true: it had been enqueued to `w` (was on its pending list when `w` was declared dead);
+                     -- false: it was being handed to `w` when `w` turned out to be dead / already closed
+deriving Repr, DecidableEq
+
 structure Cfg where
   retry : Bool := true
   extra : Nat := 0             -- worker_extra_pending_inputs
@@ -63,6 +71,8 @@ structure St where
   ret : List Inp := []
   enq : List (Nat × Inp) := []  -- log of successful enqueue calls (worker, input), oldest first
   err : Option Err := none
+  /-- ghost: with retry disabled, the inputs given up (with retry enabled they go to `retries` instead) -/
+  dropped : List Drop := []
 deriving Repr
 
 def getW (s : St) (w : Nat) : Worker := (s.ws[w]?).getD {}
@@ -85,6 +95,11 @@ def unused (c : Cfg) (s : St) (inp : Inp) (fromRetries : Bool) : St :=
   else if fromRetries then { s with retries := inp :: s.retries }
   else { s with retries := s.retries ++ [inp] }
 
+/-- ghost bookkeeping for `handle_unused_data` called because worker `w` is dead or closed: with retry
+    disabled the input is given up -/
+def giveUp (c : Cfg) (s : St) (w : Nat) (inp : Inp) : St :=
+  if c.retry then s else { s with dropped := s.dropped ++ [⟨w, inp, false⟩] }
+
 /-- indices of idle workers: empty pending list and not closed (`get_next_idle_worker`) -/
 def idleFrom : List Worker → Nat → List Nat
   | [], _ => []
@@ -95,7 +110,8 @@ def idle (s : St) : List Nat := idleFrom s.ws 0
 /-- bookkeeping part of `handle_death` before its re-dispatch loop -/
 def markDead (c : Cfg) (s : St) (w : Nat) : St :=
   let x := getW s w
-  let s := if c.retry then { s with retries := s.retries ++ x.ppw } else s
+  let s := if c.retry then { s with retries := s.retries ++ x.ppw }
+           else { s with dropped := s.dropped ++ x.ppw.map (fun i => ⟨w, i, true⟩) }
   let s := { s with pending := s.pending - x.ppw.length }
   setW s w { x with ppw := [], closed := true }
 
@@ -131,7 +147,7 @@ def settle (c : Cfg) (pick : List Nat → Option Nat) : Nat → St → St
           -- enqueue raised, worker is dead: handle_death(idle) (its own loop first) ...
           let s := settle c pick fuel (markDead c s w)
           -- ... then handle_unused_data(inp, True), then the outer loop goes on
-          settle c pick fuel (unused c s inp true)
+          settle c pick fuel (unused c (giveUp c s w inp) inp true)
 
 /-- `handle_death` -/
 def handleDeath (c : Cfg) (pick : List Nat → Option Nat) (s : St) (w : Nat) : St :=
@@ -142,10 +158,10 @@ def tryEnqueue (c : Cfg) (pick : List Nat → Option Nat) (s : St) (w : Nat) : S
   match nextInputs s with
   | (none, s) => (s, false)
   | (some (fromRetries, inp), s) =>
-    if (getW s w).closed then (unused c s inp fromRetries, true)
+    if (getW s w).closed then (unused c (giveUp c s w inp) inp fromRetries, true)
     else if c.refuse w inp then (unused c s inp fromRetries, true)
     else if (getW s w).alive then (doEnqueue s w inp, true)
-    else (unused c (handleDeath c pick s w) inp fromRetries, true)
+    else (unused c (giveUp c (handleDeath c pick s w) w inp) inp fromRetries, true)
 
 /-- one round of `first_enqueue` over the workers `k, k+1, ...`; `false` = stop everything -/
 def firstRound (c : Cfg) (pick : List Nat → Option Nat) : Nat → Nat → St → St × Bool
@@ -274,7 +290,7 @@ def resetFor (r : ResetCfg) (s : St) (src : List Inp) : St :=
     retries := if r.retries then [] else s.retries,
     pending := if r.pending then 0 else s.pending,
     ret := if r.ret then [] else s.ret,
-    enq := [], err := none }
+    enq := [], err := none, dropped := [] }
 
 /-- `run()` returns at once (with `None`) when no usable worker is left -/
 def usable (s : St) : Bool := s.ws.any (fun w => !w.closed)
